@@ -72,8 +72,9 @@ class PrecipitationData:
 
 class TemperatureParameters:
     def __init__(self, *args):
-        self.setTemperatureParameters(*args)
+        #Default before parsing the arguments, setTemperatureParameters sets the flag for array/function input
         self._isIsothermal = True
+        self.setTemperatureParameters(*args)
 
     def setTemperatureParameters(self, *args):
         if len(args) == 2:
